@@ -484,4 +484,406 @@ theorem chain_genuine {z : Zone} (hz : z.WF) {r : Nsec} (hr : r ∈ z.chain) : G
       rw [ho]
       exact hlast x ((hmem x).mpr hx)
 
+
+/-! ### D. gaps -/
+
+theorem find_eq_none_iff (z : Zone) (q : Name) : z.find q = none ↔ q ∉ z.authNames := by
+  unfold Zone.find
+  rw [List.find?_eq_none, mem_authNames]
+  simp only [beq_iff_eq]
+  constructor
+  · intro h ⟨n, hn, he⟩; exact h n hn he
+  · intro h n hn he; exact h ⟨n, hn, he⟩
+
+theorem find_some {z : Zone} {q : Name} {a : Node} (h : z.find q = some a) : a ∈ z.auth ∧ a.name = q := by
+  unfold Zone.find at h
+  exact ⟨List.mem_of_find?_eq_some h, by simpa using List.find?_some h⟩
+
+theorem find_of_mem {z : Zone} (hz : z.WF) {a : Node} (ha : a ∈ z.auth) : z.find a.name = some a := by
+  cases hf : z.find a.name with
+  | none => exact absurd ((mem_authNames z _).mpr ⟨a, ha, rfl⟩) ((find_eq_none_iff z _).mp hf)
+  | some b =>
+    obtain ⟨hb, hn⟩ := find_some hf
+    rw [pairwise_name_unique z.auth (auth_nodup hz) hb ha hn]
+
+/-- in the tree = in the zone and at or above an authoritative name. -/
+theorem inTree_iff {z : Zone} (hz : z.WF) (p : Name) :
+    z.inTree p = true ↔ z.apex <+: p ∧ ∃ m ∈ z.authNames, p <+: m := by
+  unfold Zone.inTree
+  constructor
+  · intro h
+    rcases Bool.or_eq_true_iff.mp h with h | h
+    · obtain ⟨a, ha⟩ := Option.isSome_iff_exists.mp h
+      obtain ⟨hmem, hn⟩ := find_some ha
+      have : p ∈ z.authNames := (mem_authNames z p).mpr ⟨a, hmem, hn⟩
+      exact ⟨auth_in_zone hz this, p, this, List.prefix_refl p⟩
+    · unfold Zone.isENT at h
+      simp only [Bool.and_eq_true, List.isPrefixOf_iff_prefix, List.any_eq_true, bne_iff_ne] at h
+      obtain ⟨⟨hin, _⟩, n, hn, hpre, _⟩ := h
+      exact ⟨hin, n.name, (mem_authNames z _).mpr ⟨n, hn, rfl⟩, hpre⟩
+  · rintro ⟨hin, m, hm, hpre⟩
+    cases hf : z.find p with
+    | some a => simp
+    | none =>
+      have hp : p ∉ z.authNames := (find_eq_none_iff z p).mp hf
+      obtain ⟨n, hn, rfl⟩ := (mem_authNames z m).mp hm
+      have hne : n.name ≠ p := fun e => hp (e ▸ hm)
+      simp only [Option.isSome_none, Bool.false_or]
+      unfold Zone.isENT
+      simp only [Bool.and_eq_true, List.isPrefixOf_iff_prefix, List.any_eq_true, bne_iff_ne, hf,
+        Option.isNone_none, and_true]
+      exact ⟨hin, n, hn, hpre, hne⟩
+
+/-- a name below a cut is below an *authoritative* cut (the topmost one). -/
+theorem occluded_has_auth_cut (z : Zone) : ∀ (k : Nat) (q : Name), q.length ≤ k → z.occluded q = true →
+    ∃ c ∈ z.auth, cutTypes c.types = true ∧ c.name <+: q ∧ c.name ≠ q := by
+  intro k
+  induction k with
+  | zero =>
+    intro q hk hocc
+    obtain ⟨c, _, _, hpre, hne⟩ := (occluded_iff z q).mp hocc
+    have : q = [] := List.eq_nil_of_length_eq_zero (by omega)
+    subst this
+    exact absurd (List.prefix_nil.mp hpre) hne
+  | succ k ih =>
+    intro q hk hocc
+    obtain ⟨c, hc, hcut, hpre, hne⟩ := (occluded_iff z q).mp hocc
+    cases hco : z.occluded c.name with
+    | false => exact ⟨c, (mem_auth z c).mpr ⟨hc, hco⟩, hcut, hpre, hne⟩
+    | true =>
+      have hlen : c.name.length < q.length := by
+        rcases Nat.lt_or_ge c.name.length q.length with h | h
+        · exact h
+        · exact absurd (hpre.eq_of_length (Nat.le_antisymm hpre.length_le h)) hne
+      obtain ⟨c', hc', hcut', hpre', hne'⟩ := ih c.name (by omega) hco
+      refine ⟨c', hc', hcut', hpre'.trans hpre, ?_⟩
+      intro e
+      have := hpre'.length_le
+      rw [e] at this
+      omega
+
+/-- `q` lies strictly inside the span that follows owner `o` (next name `n`)
+of the genuine chain: every authoritative name is on one side of it. -/
+structure InGap (z : Zone) (o n q : Name) : Prop where
+  owner : o ∈ z.authNames
+  next : n ∈ z.authNames
+  lt : cmpName o q = .lt
+  side : ∀ m ∈ z.authNames, cmpName m o ≠ .gt ∨
+    (cmpName o n = .lt ∧ cmpName n m ≠ .gt ∧ cmpName q n = .lt)
+
+theorem Genuine.owner_mem {z : Zone} {r : Nsec} (g : Genuine z r) : r.owner ∈ z.authNames := by
+  obtain ⟨a, ha, hn, _⟩ := g.node
+  exact (mem_authNames z _).mpr ⟨a, ha, hn⟩
+
+theorem Genuine.next_mem {z : Zone} (hz : z.WF) {r : Nsec} (g : Genuine z r) : r.next ∈ z.authNames := by
+  rcases g.gap with ⟨h, _⟩ | ⟨h, _⟩
+  · exact h
+  · rw [h]; exact apex_auth hz
+
+/-- a genuine record that strictly brackets `q` (normal span), or is the last
+record with `q` after it, puts `q` in its gap. -/
+theorem Genuine.inGap {z : Zone} (hz : z.WF) {r : Nsec} (g : Genuine z r) {q : Name}
+    (hlt : cmpName r.owner q = .lt)
+    (hnext : cmpName r.owner r.next = .lt → cmpName q r.next = .lt) : InGap z r.owner r.next q := by
+  refine ⟨g.owner_mem, g.next_mem hz, hlt, ?_⟩
+  intro m hm
+  rcases g.gap with ⟨_, hon, hbetween⟩ | ⟨_, hlast⟩
+  · rcases lawful_cmpName.total m r.owner with h | h | h
+    · left; rw [h]; decide
+    · left; rw [h, lawful_cmpName.refl]; decide
+    · right
+      refine ⟨hon, ?_, hnext hon⟩
+      have : cmpName m r.next ≠ .lt := fun e => hbetween m hm ⟨h, e⟩
+      rcases (lawful_cmpName.not_lt_iff _ _).mp this with h' | h'
+      · rw [h']; decide
+      · rw [h', lawful_cmpName.refl]; decide
+  · left
+    rcases (lawful_cmpName.not_lt_iff _ _).mp (hlast m hm) with h' | h'
+    · rw [h']; decide
+    · rw [← h', lawful_cmpName.refl]; decide
+
+/-- `dnssec.nsecCovers` with a genuine record and an in-zone name. -/
+theorem covers_inGap {z : Zone} (hz : z.WF) {r : Nsec} (g : Genuine z r) {q : Name} (hq : z.apex <+: q)
+    (hc : nsecCovers r.owner r.next q = true) : InGap z r.owner r.next q := by
+  unfold nsecCovers at hc
+  simp only at hc
+  have hge : cmpName z.apex q ≠ .gt := cmpList_prefix_ne_gt lawful_cmpLabel hq
+  rcases g.gap with ⟨_, hon, _⟩ | ⟨hnx, hlast⟩
+  · simp only [hon, reduceCtorEq, if_false, if_true, Bool.and_eq_true, decide_eq_true_eq] at hc
+    exact g.inGap hz ((lawful_cmpName.gt_iff _ _).mp hc.1) (fun _ => hc.2)
+  · have hnotlt : cmpName r.owner r.next ≠ .lt := by
+      rw [hnx]; exact hlast _ (apex_auth hz)
+    refine g.inGap hz ?_ (fun h => absurd h hnotlt)
+    by_cases heq : cmpName r.owner r.next = .eq
+    · simp only [heq, if_true, bne_iff_ne, ne_eq] at hc
+      have ho : r.owner = z.apex := by rw [← hnx]; exact (lawful_cmpName.eq_iff _ _).mp heq
+      rw [ho]
+      refine cmpList_prefix_lt lawful_cmpLabel hq ?_
+      intro e
+      rw [ho, ← e, lawful_cmpName.refl] at hc
+      exact hc rfl
+    · simp only [heq, hnotlt, if_false, Bool.or_eq_true, decide_eq_true_eq] at hc
+      rcases hc with hc | hc
+      · exact (lawful_cmpName.gt_iff _ _).mp hc
+      · rw [hnx] at hc
+        exact absurd ((lawful_cmpName.gt_iff _ _).mpr hc) hge
+
+theorem InGap.not_auth {z : Zone} {o n q : Name} (h : InGap z o n q) : q ∉ z.authNames := by
+  intro hq
+  rcases h.side q hq with h1 | ⟨_, h2, h3⟩
+  · exact h1 ((lawful_cmpName.gt_iff _ _).mpr h.lt)
+  · exact h2 ((lawful_cmpName.gt_iff _ _).mpr h3)
+
+theorem InGap.find_none {z : Zone} {o n q : Name} (h : InGap z o n q) : z.find q = none :=
+  (find_eq_none_iff z q).mpr h.not_auth
+
+theorem InGap.ne_apex {z : Zone} (hz : z.WF) {o n q : Name} (h : InGap z o n q) : q ≠ z.apex :=
+  fun e => h.not_auth (e ▸ apex_auth hz)
+
+/-- a name in a gap that lies below a cut lies below the *owner* of the
+span, and that owner is the cut. -/
+theorem InGap.occluded {z : Zone} (hz : z.WF) {o n q : Name} (h : InGap z o n q)
+    (hocc : z.occluded q = true) :
+    ∃ a ∈ z.auth, a.name = o ∧ cutTypes a.types = true ∧ o <+: q ∧ o ≠ q := by
+  obtain ⟨c, hc, hcut, hpre, hne⟩ := occluded_has_auth_cut z q.length q (Nat.le_refl _) hocc
+  have hcm : c.name ∈ z.authNames := (mem_authNames z _).mpr ⟨c, hc, rfl⟩
+  have hcq : cmpName c.name q = .lt := cmpList_prefix_lt lawful_cmpLabel hpre hne
+  have hco : cmpName c.name o ≠ .gt := by
+    rcases h.side c.name hcm with h1 | ⟨_, h2, h3⟩
+    · exact h1
+    · exact absurd (lawful_cmpName.trans _ _ _ hcq h3) (fun e => h2 ((lawful_cmpName.gt_iff _ _).mpr e))
+  have hoq : cmpName o q ≠ .gt := by rw [h.lt]; decide
+  have hpo : c.name <+: o := prefix_convex lawful_cmpLabel c.name c.name o q (List.prefix_refl _) hpre hco hoq
+  by_cases hceq : c.name = o
+  · exact ⟨c, hc, hceq, hcut, hceq ▸ hpre, hceq ▸ hne⟩
+  · -- then `o` would itself be occluded
+    obtain ⟨a, ha, han⟩ := (mem_authNames z o).mp h.owner
+    have hao := ((mem_auth z a).mp ha).2
+    have : z.occluded a.name = true :=
+      (occluded_iff z _).mpr ⟨c, ((mem_auth z c).mp hc).1, hcut, han ▸ hpo, han ▸ hceq⟩
+    rw [hao] at this; cases this
+
+theorem isStrictSub_iff (name parent : Name) :
+    isStrictSub name parent = true ↔ parent <+: name ∧ parent ≠ name := by
+  unfold isStrictSub
+  simp only [Bool.and_eq_true, List.isPrefixOf_iff_prefix, decide_eq_true_eq]
+  constructor
+  · rintro ⟨h1, h2⟩; exact ⟨h1, fun e => by rw [e] at h2; omega⟩
+  · rintro ⟨h1, h2⟩
+    refine ⟨h1, ?_⟩
+    rcases Nat.lt_or_ge parent.length name.length with h | h
+    · exact h
+    · exact absurd (h1.eq_of_length (Nat.le_antisymm h1.length_le h)) h2
+
+/-- in a gap, "empty non-terminal" is exactly "the next name is below `q`"
+(RFC 8198 Appendix B). -/
+theorem InGap.isENT_iff {z : Zone} (hz : z.WF) {o n q : Name} (h : InGap z o n q) (hq : z.apex <+: q) :
+    z.isENT q = true ↔ isStrictSub n q = true := by
+  rw [isStrictSub_iff]
+  unfold Zone.isENT
+  simp only [Bool.and_eq_true, List.isPrefixOf_iff_prefix, List.any_eq_true, bne_iff_ne, h.find_none,
+    Option.isNone_none, and_true]
+  constructor
+  · rintro ⟨_, m, hm, hpre, hne⟩
+    have hmm : m.name ∈ z.authNames := (mem_authNames z _).mpr ⟨m, hm, rfl⟩
+    have hqm : cmpName q m.name = .lt := cmpList_prefix_lt lawful_cmpLabel hpre (fun e => hne e.symm)
+    rcases h.side m.name hmm with h1 | ⟨_, h2, h3⟩
+    · exact absurd (lawful_cmpName.trans _ _ _ (lawful_cmpName.lt_of_le_of_lt h1 h.lt) hqm)
+        (lawful_cmpName.lt_irrefl _)
+    · have hqn : cmpName q n ≠ .gt := by rw [h3]; decide
+      refine ⟨prefix_convex lawful_cmpLabel q q n m.name (List.prefix_refl _) hpre hqn h2, ?_⟩
+      intro e; rw [e, lawful_cmpName.refl] at h3; cases h3
+  · rintro ⟨hpre, hne⟩
+    obtain ⟨a, ha, han⟩ := (mem_authNames z n).mp h.next
+    exact ⟨hq, a, ha, han ▸ hpre, han ▸ (fun e => hne e.symm)⟩
+
+/-! ### closest encloser -/
+
+theorem ceLen_eq (z : Zone) (q : Name) (K : Nat) (hin : z.inTree (q.take K) = true) :
+    ∀ fuel, K < fuel → (∀ k, K < k → k < fuel → z.inTree (q.take k) = false) → z.ceLen q fuel = K := by
+  intro fuel
+  induction fuel with
+  | zero => intro h; omega
+  | succ f ih =>
+    intro hK hnot
+    unfold Zone.ceLen
+    by_cases hf : f = K
+    · subst hf; simp [hin]
+    · have := hnot f (by omega) (by omega)
+      simp only [this, Bool.false_eq_true, if_false]
+      exact ih (by omega) (fun k h1 h2 => hnot k h1 (by omega))
+
+/-- the cap-and-max expression both Go closest-encloser helpers compute. -/
+def ceK (q o n : Name) : Nat :=
+  let l := max (lcp q o) (lcp q n)
+  if l ≥ q.length then q.length - 1 else l
+
+/-- **Closest encloser from a covering NSEC**: in a gap of the genuine chain
+the longest proper ancestor of `q` that is in the zone's tree has exactly
+`max (lcp q owner) (lcp q next)` labels (capped to a proper ancestor). -/
+theorem InGap.closestEncloser {z : Zone} (hz : z.WF) {o n q : Name} (h : InGap z o n q) (hq : z.apex <+: q) :
+    z.closestEncloser q = q.take (ceK q o n) := by
+  unfold Zone.closestEncloser
+  congr 1
+  have hqne := h.ne_apex hz
+  have hlen : z.apex.length < q.length := by
+    rcases Nat.lt_or_ge z.apex.length q.length with h' | h'
+    · exact h'
+    · exact absurd (hq.eq_of_length (Nat.le_antisymm hq.length_le h')).symm hqne
+  have hapo : z.apex.length ≤ lcp q o := lcp_ge_of_common_prefix z.apex q o hq (auth_in_zone hz h.owner)
+  have hKlt : ceK q o n < q.length := by unfold ceK; simp only; split <;> omega
+  have hKge : z.apex.length ≤ ceK q o n := by unfold ceK; simp only; split <;> omega
+  have hKle : ceK q o n ≤ lcp q o ∨ ceK q o n ≤ lcp q n := by
+    unfold ceK; simp only; split <;> omega
+  refine ceLen_eq z q (ceK q o n) ?_ q.length hKlt ?_
+  · rw [inTree_iff hz]
+    constructor
+    · rw [List.prefix_take_iff]; exact ⟨hq, hKge⟩
+    · rcases hKle with hk | hk
+      · exact ⟨o, h.owner, (List.take_prefix_take_left hk).trans (lcp_take_prefix_right q o)⟩
+      · exact ⟨n, h.next, (List.take_prefix_take_left hk).trans (lcp_take_prefix_right q n)⟩
+  · intro k hk1 hk2
+    cases hin : z.inTree (q.take k) with
+    | false => rfl
+    | true =>
+      exfalso
+      obtain ⟨_, m, hm, hpre⟩ := (inTree_iff hz _).mp hin
+      have hpq : q.take k <+: q := List.take_prefix _ _
+      have hplen : (q.take k).length = k := by rw [List.length_take]; omega
+      have hL : max (lcp q o) (lcp q n) < k := by
+        unfold ceK at hk1; simp only at hk1
+        split at hk1 <;> omega
+      rcases h.side m hm with h1 | ⟨_, h2, h3⟩
+      · have hoq : cmpName o q ≠ .gt := by rw [h.lt]; decide
+        have := prefix_convex lawful_cmpLabel (q.take k) m o q hpre hpq h1 hoq
+        have := lcp_ge_of_common_prefix _ q o hpq this
+        omega
+      · have hqn : cmpName q n ≠ .gt := by rw [h3]; decide
+        have := prefix_convex lawful_cmpLabel (q.take k) q n m hpq hpre hqn h2
+        have := lcp_ge_of_common_prefix _ q n hpq this
+        omega
+
+theorem closestEncloserFromNSEC_eq (q : Name) (r : Nsec) :
+    closestEncloserFromNSEC q r = q.take (ceK q r.owner r.next) := rfl
+
+theorem closestEncloserFromAggressiveNSEC_eq (q : Name) (r : Nsec) (hq : q.length ≠ 0) :
+    closestEncloserFromAggressiveNSEC q r = some (q.take (ceK q r.owner r.next)) := by
+  unfold closestEncloserFromAggressiveNSEC
+  simp [hq, ceK]
+
+
+/-! ### E. bitmaps, answer classes -/
+
+theorem typesSet_single (b : List Nat) (x : Nat) : typesSet b [x] = b.contains x := by
+  unfold typesSet
+  induction b with
+  | nil => simp
+  | cons y t ih =>
+    simp only [List.any_cons, ih, List.contains_cons]
+    congr 1
+    simp [List.contains, List.elem, eq_comm]
+
+theorem typesSet_pair_false (b : List Nat) (x y : Nat) :
+    typesSet b [x, y] = false ↔ b.contains x = false ∧ b.contains y = false := by
+  unfold typesSet
+  induction b with
+  | nil => simp
+  | cons z t ih =>
+    simp only [List.any_cons, Bool.or_eq_false_iff, ih, List.contains_cons]
+    have : ([x, y].contains z = false) ↔ ((x == z) = false ∧ (y == z) = false) := by
+      simp only [List.contains_cons, List.contains_nil, Bool.or_false, Bool.or_eq_false_iff]
+      constructor
+      · rintro ⟨h1, h2⟩
+        exact ⟨by simpa [eq_comm] using h1, by simpa [eq_comm] using h2⟩
+      · rintro ⟨h1, h2⟩
+        exact ⟨by simpa [eq_comm] using h1, by simpa [eq_comm] using h2⟩
+    rw [this]
+    constructor
+    · rintro ⟨⟨h1, h2⟩, h3, h4⟩; exact ⟨⟨h1, h3⟩, h2, h4⟩
+    · rintro ⟨⟨h1, h3⟩, h2, h4⟩; exact ⟨⟨h1, h2⟩, h3, h4⟩
+
+theorem aggDeleg_eq (b : List Nat) : aggressiveDelegationBitmap b = delegTypes b := by
+  unfold aggressiveDelegationBitmap delegTypes
+  rw [typesSet_single, typesSet_single]
+
+theorem cutBitmap_eq (b : List Nat) :
+    (aggressiveDelegationBitmap b || typesSet b [tDNAME]) = cutTypes b := by
+  unfold cutTypes
+  rw [aggDeleg_eq, typesSet_single]
+
+theorem Genuine.types_of_node {z : Zone} (hz : z.WF) {r : Nsec} (g : Genuine z r) {a : Node}
+    (ha : a ∈ z.auth) (hn : a.name = r.owner) : a.types = r.types := by
+  obtain ⟨b, hb, hbn, hbt⟩ := g.node
+  rw [pairwise_name_unique z.auth (auth_nodup hz) ha hb (hn.trans hbn.symm)]
+  exact hbt
+
+theorem answerClass_nxdomain (z : Zone) (q : Name) (t : Nat) (hq : z.apex <+: q) (hne : q ≠ z.apex)
+    (hocc : z.occluded q = false) (hfind : z.find q = none) (hent : z.isENT q = false)
+    (hw : z.find (z.closestEncloser q ++ [star]) = none)
+    (hwe : z.isENT (z.closestEncloser q ++ [star]) = false) : z.answerClass q t = .nxdomain := by
+  unfold Zone.answerClass
+  have h1 : z.apex.isPrefixOf q = true := List.isPrefixOf_iff_prefix.mpr hq
+  have h2 : (q == z.apex) = false := by simpa using hne
+  simp [h1, h2, hocc, hfind, hent, hw, hwe]
+
+theorem answerClass_ent (z : Zone) (q : Name) (t : Nat) (hq : z.apex <+: q) (hne : q ≠ z.apex)
+    (hocc : z.occluded q = false) (hfind : z.find q = none) (hent : z.isENT q = true) :
+    z.answerClass q t = .nodata := by
+  unfold Zone.answerClass
+  have h1 : z.apex.isPrefixOf q = true := List.isPrefixOf_iff_prefix.mpr hq
+  have h2 : (q == z.apex) = false := by simpa using hne
+  simp [h1, h2, hocc, hfind, hent]
+
+theorem answerAt_nodata (a : Node) (t : Nat) (h1 : a.types.contains t = false)
+    (h2 : a.types.contains tCNAME = false) : answerAt a t = .nodata := by
+  unfold answerAt; simp [h1, h2]
+
+theorem answerClass_wild (z : Zone) (q : Name) (t : Nat) (hq : z.apex <+: q) (hne : q ≠ z.apex)
+    (hocc : z.occluded q = false) (hfind : z.find q = none) (hent : z.isENT q = false) {a : Node}
+    (hw : z.find (z.closestEncloser q ++ [star]) = some a) : z.answerClass q t = answerAt a t := by
+  unfold Zone.answerClass
+  have h1 : z.apex.isPrefixOf q = true := List.isPrefixOf_iff_prefix.mpr hq
+  have h2 : (q == z.apex) = false := by simpa using hne
+  simp [h1, h2, hocc, hfind, hent, hw]
+
+theorem answerClass_wild_ent (z : Zone) (q : Name) (t : Nat) (hq : z.apex <+: q) (hne : q ≠ z.apex)
+    (hocc : z.occluded q = false) (hfind : z.find q = none) (hent : z.isENT q = false)
+    (hw : z.find (z.closestEncloser q ++ [star]) = none)
+    (hwe : z.isENT (z.closestEncloser q ++ [star]) = true) : z.answerClass q t = .nodata := by
+  unfold Zone.answerClass
+  have h1 : z.apex.isPrefixOf q = true := List.isPrefixOf_iff_prefix.mpr hq
+  have h2 : (q == z.apex) = false := by simpa using hne
+  simp [h1, h2, hocc, hfind, hent, hw, hwe]
+
+/-- NODATA at an authoritative owner whose bitmap lacks the type and CNAME,
+respecting the DS/SOA parent-side rule and not a delegation point (unless
+the question is DS). -/
+theorem answerClass_exact_nodata {z : Zone} (hz : z.WF) {a : Node} (ha : a ∈ z.auth) (t : Nat)
+    (h1 : a.types.contains t = false) (h2 : a.types.contains tCNAME = false)
+    (hds : t = tDS → a.types.contains tSOA = false)
+    (hdel : t = tDS ∨ delegTypes a.types = false) : z.answerClass a.name t = .nodata := by
+  have hin : z.apex <+: a.name := hz.in_zone a ((mem_auth z a).mp ha).1
+  have hocc := ((mem_auth z a).mp ha).2
+  have hfind := find_of_mem hz ha
+  unfold Zone.answerClass
+  have e1 : z.apex.isPrefixOf a.name = true := List.isPrefixOf_iff_prefix.mpr hin
+  have e2 : (a.name == z.apex && t == tDS) = false := by
+    cases hda : (a.name == z.apex && t == tDS) with
+    | false => rfl
+    | true =>
+      exfalso
+      simp only [Bool.and_eq_true, beq_iff_eq] at hda
+      obtain ⟨n, hn, hname, hsoa⟩ := hz.apex_soa
+      have : a = n := node_unique hz ((mem_auth z a).mp ha).1 hn (hda.1.trans hname.symm)
+      subst this
+      have := hds hda.2
+      rw [List.contains_iff_mem.mpr hsoa] at this
+      cases this
+  have e3 : (delegTypes a.types && t != tDS) = false := by
+    rcases hdel with rfl | h
+    · simp
+    · simp [h]
+  simp only [e1, Bool.not_true, Bool.false_eq_true, if_false, e2, hocc, hfind, e3]
+  exact answerAt_nodata a t h1 h2
+
 end SdnsVerif.Lemmas.Nsec
